@@ -341,9 +341,7 @@ pub const IFDATA_A2ML: &str = r#"
     };
 "#;
 
-pub fn ifdata_cases(g: &Grammar, out: &mut Vec<Case>) {
-    let mut gen = Gen::new(g);
-    let payloads: Vec<(&str, &str)> = vec![
+pub const IFDATA_PAYLOADS: &[(&str, &str)] = &[
         ("empty", ""),
         ("vx", "VX 1"),
         ("xcp-seg", "XCP /begin SEG 1 0x2 3 -4 0x5 1.5 2.5e10 \"txt\" /end SEG"),
@@ -355,11 +353,15 @@ pub fn ifdata_cases(g: &Grammar, out: &mut Vec<Case>) {
         ("unknown-floats", "ZZZ 1e3 2.0 -0.0 1e-300 0.1 1e300 4294967296.0"),
         ("unknown-wide-ints", "ZZZ 4294967295 4294967297 -2147483649 18446744073709551615 0x1FFFFFFFF"),
         ("unknown-bare-values", "1 2.5 \"s\" 7.0"),
-    ];
+];
+
+pub fn ifdata_cases(g: &Grammar, out: &mut Vec<Case>) {
+    let mut gen = Gen::new(g);
+    let payloads = IFDATA_PAYLOADS;
     for with_a2ml in [false, true] {
         for builtin in [false, true] {
             for parent in ["MODULE", "MEASUREMENT", "MEMORY_SEGMENT"] {
-                for (pn, pl) in &payloads {
+                for (pn, pl) in payloads {
                     let (mut doc, path) = gen.carrier_v(parent, 5, 1);
                     if with_a2ml {
                         let mut a = gen.min_node("A2ML", 5, 1);
